@@ -547,6 +547,10 @@ func overrideRemapExprHandles(kind ExpressionKind, handleMap []ExpressionHandle)
 		case SampleLevelBias:
 			lv.Bias = remap(lv.Bias)
 			s.Level = lv
+		case SampleLevelGradient:
+			lv.X = remap(lv.X)
+			lv.Y = remap(lv.Y)
+			s.Level = lv
 		}
 		return s
 	case ExprImageLoad:
@@ -589,6 +593,8 @@ func overrideRemapExprHandles(kind ExpressionKind, handleMap []ExpressionHandle)
 		return ExprRelational{Fun: k.Fun, Argument: remap(k.Argument)}
 	case ExprArrayLength:
 		return ExprArrayLength{Array: remap(k.Array)}
+	case ExprRayQueryGetIntersection:
+		return ExprRayQueryGetIntersection{Query: remap(k.Query), Committed: k.Committed}
 	}
 	// Literal, ExprConstant, ExprGlobalVariable, ExprLocalVariable, ExprFunctionArgument,
 	// ExprCallResult, ExprAtomicResult, etc. — no sub-expression handles to remap
